@@ -27,6 +27,12 @@ theorem perm_pop_push {it : Item} {E rest agenda popped : List Item} (h : (it ::
   rw [List.append_assoc]
   exact List.Perm.append_left E (perm_pop h)
 
+/-- the same through an agenda whose `push` only permutes -/
+theorem perm_pop_pushWith {pick : Pick} (hp : PickOK pick) {it : Item}
+    {E rest agenda popped : List Item} (h : (it :: rest).Perm agenda) :
+    (pick.push E rest ++ it :: popped).Perm (E ++ (agenda ++ popped)) :=
+  (List.Perm.append_right _ (hp.push_perm E rest)).trans (perm_pop_push h)
+
 /-! ### keys: an item is identified by `(fin, d)` -/
 
 /-- the two items do not carry the same derivation at the same stage -/
@@ -103,11 +109,17 @@ theorem binaryItems_pairwise (g : Grammar) (s : Sent) (l r : Item) :
   simp only [Deriv.bin.injEq] at h2
   exact hne h2.2.1
 
+/-- the walk order of the chart keeps the derivations pairwise different -/
+theorem neighbours_pairwise_d {chart : List Item} (p : Item → Bool)
+    (hc : chart.Pairwise (fun a b => a.d ≠ b.d)) :
+    (neighbours chart p).Pairwise (fun a b => a.d ≠ b.d) :=
+  ((neighbours_perm chart p).pairwise_iff (fun h => Ne.symm h)).2 (hc.filter p)
+
 theorem binL_pairwise {g : Grammar} {s : Sent} {it : Item} {chart : List Item} (p : Item → Bool)
     (hc : chart.Pairwise (fun a b => a.d ≠ b.d)) :
-    ((chart.filter p).flatMap (fun o => binaryItems g s it o)).Pairwise KNe := by
+    ((neighbours chart p).flatMap (fun o => binaryItems g s it o)).Pairwise KNe := by
   refine List.pairwise_flatMap.2 ⟨fun o _ => binaryItems_pairwise g s it o, ?_⟩
-  refine (hc.filter p).imp ?_
+  refine (neighbours_pairwise_d p hc).imp ?_
   intro o1 o2 hne x hx y hy h
   obtain ⟨_, c1, r1, h1, e1⟩ := binaryItems_shape hx
   obtain ⟨_, c2, r2, h2, e2⟩ := binaryItems_shape hy
@@ -118,9 +130,9 @@ theorem binL_pairwise {g : Grammar} {s : Sent} {it : Item} {chart : List Item} (
 
 theorem binR_pairwise {g : Grammar} {s : Sent} {it : Item} {chart : List Item} (p : Item → Bool)
     (hc : chart.Pairwise (fun a b => a.d ≠ b.d)) :
-    ((chart.filter p).flatMap (fun o => binaryItems g s o it)).Pairwise KNe := by
+    ((neighbours chart p).flatMap (fun o => binaryItems g s o it)).Pairwise KNe := by
   refine List.pairwise_flatMap.2 ⟨fun o _ => binaryItems_pairwise g s o it, ?_⟩
-  refine (hc.filter p).imp ?_
+  refine (neighbours_pairwise_d p hc).imp ?_
   intro o1 o2 hne x hx y hy h
   obtain ⟨_, c1, r1, h1, e1⟩ := binaryItems_shape hx
   obtain ⟨_, c2, r2, h2, e2⟩ := binaryItems_shape hy
@@ -137,18 +149,18 @@ def ExpKind (chart : List Item) (it x : Item) : Prop :=
   (x.fin = false ∧ ∃ o ∈ chart, ∃ c rid hl, x.d = .bin c rid hl o.d it.d)
 
 theorem mem_binL {g : Grammar} {s : Sent} {it x : Item} {chart : List Item} {p : Item → Bool}
-    (h : x ∈ (chart.filter p).flatMap (fun o => binaryItems g s it o)) :
+    (h : x ∈ (neighbours chart p).flatMap (fun o => binaryItems g s it o)) :
     x.fin = false ∧ ∃ o ∈ chart, ∃ c rid hl, x.d = .bin c rid hl it.d o.d := by
   obtain ⟨o, ho, hx⟩ := List.mem_flatMap.1 h
   obtain ⟨hf, c, rid, hl, e⟩ := binaryItems_shape hx
-  exact ⟨hf, o, (List.mem_filter.1 ho).1, c, rid, hl, e⟩
+  exact ⟨hf, o, (mem_neighbours.1 ho).1, c, rid, hl, e⟩
 
 theorem mem_binR {g : Grammar} {s : Sent} {it x : Item} {chart : List Item} {p : Item → Bool}
-    (h : x ∈ (chart.filter p).flatMap (fun o => binaryItems g s o it)) :
+    (h : x ∈ (neighbours chart p).flatMap (fun o => binaryItems g s o it)) :
     x.fin = false ∧ ∃ o ∈ chart, ∃ c rid hl, x.d = .bin c rid hl o.d it.d := by
   obtain ⟨o, ho, hx⟩ := List.mem_flatMap.1 h
   obtain ⟨hf, c, rid, hl, e⟩ := binaryItems_shape hx
-  exact ⟨hf, o, (List.mem_filter.1 ho).1, c, rid, hl, e⟩
+  exact ⟨hf, o, (mem_neighbours.1 ho).1, c, rid, hl, e⟩
 
 theorem mem_expand_kind {g : Grammar} {s : Sent} {cfg : Cfg} {chart : List Item} {it x : Item}
     (h : x ∈ expand g s cfg chart it) : ExpKind chart it x := by
@@ -305,9 +317,12 @@ theorem leafItems_pairwise (s : Sent) (cfg : Cfg) : (leafItems s cfg).Pairwise K
     simp only [leafItem, Deriv.leaf.injEq] at hd
     exact hne hd.1
 
-theorem NB.init (g : Grammar) (s : Sent) (cfg : Cfg) : NB g s cfg (init s cfg) where
+theorem NB.init {pick : Pick} (hp : PickOK pick) (g : Grammar) (s : Sent) (cfg : Cfg) :
+    NB g s cfg (init pick s cfg) where
   distinct := by
-    show (leafItems s cfg ++ []).Pairwise KNe
+    show (pick.push (leafItems s cfg) [] ++ []).Pairwise KNe
+    rw [List.append_nil]
+    refine ((hp.push_perm (leafItems s cfg) []).pairwise_iff (fun h => KNe.symm h)).2 ?_
     rw [List.append_nil]; exact leafItems_pairwise s cfg
   chartD := List.Pairwise.nil
   goalD := List.Pairwise.nil
@@ -316,8 +331,9 @@ theorem NB.init (g : Grammar) (s : Sent) (cfg : Cfg) : NB g s cfg (init s cfg) w
   sup := by
     intro y hy k hk
     have hy' : y ∈ leafItems s cfg := by
-      have : y ∈ leafItems s cfg ++ [] := hy
-      rwa [List.append_nil] at this
+      have : y ∈ pick.push (leafItems s cfg) [] ++ [] := hy
+      rw [List.append_nil] at this
+      exact hp.mem_push_nil.1 this
     obtain ⟨tok, c, _, _, rfl⟩ := mem_leafItems hy'
     simp [needs, leafItem, kids] at hk
   leafs := by
@@ -325,8 +341,8 @@ theorem NB.init (g : Grammar) (s : Sent) (cfg : Cfg) : NB g s cfg (init s cfg) w
     cases h with
     | leaf _ _ sc ht hm =>
       refine ⟨leafItem s t (sc, c), ?_, rfl, rfl⟩
-      show _ ∈ leafItems s cfg ++ []
-      rw [List.append_nil]
+      show _ ∈ pick.push (leafItems s cfg) [] ++ []
+      rw [List.append_nil, hp.mem_push_nil]
       simp only [leafItems, List.mem_flatMap, List.mem_range, List.mem_map]
       exact ⟨t, ht, (sc, c), hm, rfl⟩
   uns := fun _ h => by cases h
@@ -387,14 +403,14 @@ theorem binL_mem_expand {g : Grammar} {s : Sent} {cfg : Cfg} {chart : List Item}
     x ∈ expand g s cfg chart it := by
   simp only [expand, List.mem_append]
   refine Or.inl (Or.inr ?_)
-  exact List.mem_flatMap.2 ⟨o, List.mem_filter.2 ⟨ho, by simpa using hadj⟩, hx⟩
+  exact List.mem_flatMap.2 ⟨o, mem_neighbours.2 ⟨ho, by simpa using hadj⟩, hx⟩
 
 theorem binR_mem_expand {g : Grammar} {s : Sent} {cfg : Cfg} {chart : List Item} {it o x : Item}
     (ho : o ∈ chart) (hadj : o.stop = it.start) (hx : x ∈ binaryItems g s o it) :
     x ∈ expand g s cfg chart it := by
   simp only [expand, List.mem_append]
   refine Or.inr ?_
-  exact List.mem_flatMap.2 ⟨o, List.mem_filter.2 ⟨ho, by simpa using hadj⟩, hx⟩
+  exact List.mem_flatMap.2 ⟨o, mem_neighbours.2 ⟨ho, by simpa using hadj⟩, hx⟩
 
 /-- the licensed unary parents of the new chart item are pushed -/
 theorem expand_has_un {g : Grammar} {s : Sent} {cfg : Cfg} {chart : List Item} {it : Item}
@@ -451,18 +467,21 @@ theorem not_self_adjacent {g : Grammar} {s : Sent} {cfg : Cfg} {c rid : Nat} {hl
     omega
 
 /-- the state after the non-final `it` was popped and entered the chart -/
-def pushSt (g : Grammar) (s : Sent) (cfg : Cfg) (st : St) (it : Item) (rest : List Item) : St :=
-  { popSt st it rest with chart := it :: st.chart, agenda := expand g s cfg st.chart it ++ rest }
+def pushSt (pick : Pick) (g : Grammar) (s : Sent) (cfg : Cfg) (st : St) (it : Item)
+    (rest : List Item) : St :=
+  { popSt st it rest with chart := it :: st.chart,
+                          agenda := pick.push (expand g s cfg st.chart it) rest }
 
-theorem NB.stepNF {g : Grammar} {s : Sent} {cfg : Cfg} {st : St} {it : Item} {rest : List Item}
+theorem NB.stepNF {pick : Pick} (hp : PickOK pick) {g : Grammar} {s : Sent} {cfg : Cfg} {st : St}
+    {it : Item} {rest : List Item}
     (hok : StOK g s cfg st) (h : NB g s cfg st) (hperm : (it :: rest).Perm st.agenda)
     (hf : it.fin = false) :
-    NB g s cfg (pushSt g s cfg st it rest) := by
-  have hP : (allItems (pushSt g s cfg st it rest)).Perm
-      (expand g s cfg st.chart it ++ allItems st) := perm_pop_push hperm
-  have hsub : ∀ x ∈ allItems st, x ∈ allItems (pushSt g s cfg st it rest) :=
+    NB g s cfg (pushSt pick g s cfg st it rest) := by
+  have hP : (allItems (pushSt pick g s cfg st it rest)).Perm
+      (expand g s cfg st.chart it ++ allItems st) := perm_pop_pushWith hp hperm
+  have hsub : ∀ x ∈ allItems st, x ∈ allItems (pushSt pick g s cfg st it rest) :=
     fun x hx => hP.mem_iff.2 (List.mem_append_right _ hx)
-  have hnewmem : ∀ x ∈ expand g s cfg st.chart it, x ∈ allItems (pushSt g s cfg st it rest) :=
+  have hnewmem : ∀ x ∈ expand g s cfg st.chart it, x ∈ allItems (pushSt pick g s cfg st it rest) :=
     fun x hx => hP.mem_iff.2 (List.mem_append_left _ hx)
   have hitmem : it ∈ st.agenda := hperm.mem_iff.1 (List.mem_cons_self ..)
   have hit : NonFinOK g s cfg it := (hok.agenda it hitmem).1 hf
@@ -534,15 +553,15 @@ theorem NB.step {pick : Pick} {g : Grammar} {s : Sent} {cfg : Cfg} {st st' : St}
   · omega
   · exact h.stepFin hok hperm hf
   · omega
-  · exact h.stepNF hok hperm hf
+  · exact h.stepNF hp hok hperm hf
 
 theorem NB.final {pick : Pick} (hp : PickOK pick) (g : Grammar) (s : Sent) (cfg : Cfg)
     (hn : 1 < cfg.nbest) :
-    NB g s cfg (Search.loop pick g s cfg cfg.maxStep (Search.init s cfg)) := by
+    NB g s cfg (Search.loop pick g s cfg cfg.maxStep (Search.init pick s cfg)) := by
   have := loop_inv (pick := pick) (g := g) (s := s) (cfg := cfg)
     (fun st => StOK g s cfg st ∧ NB g s cfg st)
     (fun st st' h hstep => ⟨h.1.step hp hstep, h.2.step hp hn h.1 hstep⟩)
-    cfg.maxStep (Search.init s cfg) ⟨StOK.init g s cfg, NB.init g s cfg⟩
+    cfg.maxStep (Search.init pick s cfg) ⟨StOK.init hp g s cfg, NB.init hp g s cfg⟩
   exact this.2
 
 /-! ### the priority of a derivation -/
